@@ -12,7 +12,8 @@ RULE = (
     "all dependency graphs with up to N steps (each OPTIONAL or DEFAULT, inputs any subset of the "
     "outputs of earlier steps, declared or amended, defined by the root plan or a sub-plan) crossed "
     "with all target sets over their outputs, a directory target, and invalid targets; fresh "
-    "builds and builds resumed with another target set; the executed commands are compared with "
+    "builds, builds resumed with another target set, and rebuilds after an edit that makes the "
+    "root plan run again; the executed commands are compared with "
     "the need computed by an independent fixed-point model; non-trivial: at least one step was "
     "not needed, or a target elevated a step"
 )
@@ -181,6 +182,36 @@ def run_job(spec):
                      "executed_not_needed": sorted(extra), "needed_not_succeeded": notdone,
                      "second": describe(o2)}, None)
             acc.nontrivial.add(h8([g, "resume", t1, d1, t2, d2]))
+        # the root plan is edited (a comment) and runs again after a complete build: every step
+        # it defines is recycled, steps of an unchanged sub-plan come back with their creator
+        files2 = projects.f_needgraph(g["needs"], g["edges"], g["amended"], g["subplan"], v=2)
+        # (with 4 jobs a slot stays free next to the plan and its hash jobs, so the scheduler
+        # takes decisions between the plan's requests; the source change makes every step stale)
+        for nj, touch in ((1, 0), (2, 0), (4, 0), (4, 1)):
+            w = fresh_world(files, "c11")
+            o1 = session(w, {"njob": nj})
+            w.materialize(files2)
+            if touch:
+                w.write("src.txt", "changed source\n")
+            o2 = session(w, {"njob": nj})
+            w.destroy()
+            acc.evaluations += 2
+            acc.transitions += o1.nev + o2.nev
+            key = f"C11|{g['needs']}|{g['edges']}|a{g['amended']}s{g['subplan']}|replan|j{nj}t{touch}"
+            if not (o1.ok() and o2.ok()):
+                acc.violation(key + "|fault", {"graph": g, "exec": describe(o2)}, None)
+                continue
+            needed = refmodel.required_steps(o2, (), ())
+            model = refmodel.implied_need(o2, (), ())
+            stale = {s2: (o2.db_steps[s2]["implied"], v) for s2, v in model.items()
+                     if o2.db_steps[s2]["implied"] != v}
+            notdone = [s for s in needed if o2.db_steps[s]["state"] != "SUCCEEDED"]
+            extra = sorted(set(o2.started) - needed - {"./plan.py", "./sub.py"})
+            if stale or notdone or extra or o2.rc_class != o1.rc_class:
+                acc.violation(key, {"graph": g, "jobs": nj, "stored_need_vs_model": stale,
+                                    "needed_not_succeeded": notdone, "executed_not_needed": extra,
+                                    "rc": (o1.rc_class, o2.rc_class), "second": describe(o2, 40)}, None)
+            acc.nontrivial.add(h8([g, "replan", nj]))
     return acc
 
 
